@@ -127,6 +127,7 @@ func runVp9History(flexible bool, init uint16, calls []Tok, frames []vp9Frame) O
 	p := &codecs.VP9Payloader{FlexibleMode: flexible, InitialPictureIDFn: func() uint16 { return init }}
 	res := VList{}
 	pid := int(init & 0x7FFF)
+	skipped := 0 // calls that returned no packet since the last judged frame (pid has been advanced for each)
 	for ci, c := range calls {
 		l := tokList(c)
 		mtu, frame := uint16(tokInt(l[0])), tokBytes(l[1])
@@ -148,6 +149,25 @@ func runVp9History(flexible bool, init uint16, calls []Tok, frames []vp9Frame) O
 			}
 		}
 		o.Tags = append(o.Tags, fmt.Sprintf("vp9 flexible=%v frags %s", flexible, sizeBucket(len(frags))))
+		if len(frags) == 0 {
+			// no packet: an insufficient MTU or a frame without a readable header - outside the property's
+			// quantifier, and whether such a call uses up a picture id is the implementation's choice
+			skipped++
+			pid = (pid + 1) & 0x7FFF
+			continue
+		}
+		if skipped > 0 {
+			d := &codecs.VP9Packet{}
+			if _, err := d.Unmarshal(frags[0]); err == nil && d.I {
+				for k := 0; k <= skipped; k++ {
+					if (pid-k)&0x7FFF == int(d.PictureID) {
+						pid = (pid - k) & 0x7FFF
+						break
+					}
+				}
+			}
+			skipped = 0
+		}
 		if frames != nil && len(frags) > 0 {
 			fr := frames[ci]
 			o.Nontrivial = true
